@@ -330,22 +330,36 @@ pub fn run_cli(wd: &WorkDir, paths: &Paths, mode: &CliMode, env: &Env, lkm: bool
     } else {
         None
     };
-    run_raw_with(wd, paths, &argv, env, stale.as_deref())
+    let out = run_raw_with(wd, paths, &argv, env, stale.as_deref(), true);
+    if pipe.is_some() && wd.use_server && !out.via_server {
+        // The server path was abandoned in the middle of the run (tripwire or server death) and the
+        // run was repeated in a fresh process — but the server had already drained the pipe. Hand a
+        // freshly filled pipe to a fresh process.
+        drop(pipe);
+        let pipe = std::fs::read(wd.p("w.json")).ok().and_then(|d| FilledPipe::new(&d));
+        let pcode = pipe.as_ref().map_or_else(|| wd.p("w.json"), |p| p.path());
+        let argv = mode.argv(&wd.p("w.elf"), &pcode, &wd.p("out.txt"), &cfg);
+        return run_raw_with(wd, paths, &argv, env, stale.as_deref(), false);
+    }
+    out
 }
 
 pub fn run_raw(wd: &WorkDir, paths: &Paths, argv: &[String], env: &Env) -> RunOut {
-    run_raw_with(wd, paths, argv, env, None)
+    run_raw_with(wd, paths, argv, env, None, true)
 }
 
-fn run_raw_with(wd: &WorkDir, paths: &Paths, argv: &[String], env: &Env, stale_out: Option<&str>) -> RunOut {
-    for f in ["stdout.txt", "stderr.txt", "out.txt", "stats.json", "events.json"] {
-        let _ = std::fs::remove_file(wd.p(f));
-    }
-    if let Some(old) = stale_out {
-        let _ = std::fs::write(wd.p("out.txt"), old);
-    }
+fn run_raw_with(wd: &WorkDir, paths: &Paths, argv: &[String], env: &Env, stale_out: Option<&str>, allow_server: bool) -> RunOut {
+    let prepare = || {
+        for f in ["stdout.txt", "stderr.txt", "out.txt", "stats.json", "events.json"] {
+            let _ = std::fs::remove_file(wd.p(f));
+        }
+        if let Some(old) = stale_out {
+            let _ = std::fs::write(wd.p("out.txt"), old);
+        }
+    };
+    prepare();
     let t_start = std::time::Instant::now();
-    if wd.use_server {
+    if wd.use_server && allow_server {
         let mut slot = wd.server.borrow_mut();
         // a fresh server every 1000 runs bounds whatever a long-lived process may accumulate
         if slot.as_ref().map_or(true, |s| s.served >= 1000) {
@@ -372,6 +386,7 @@ fn run_raw_with(wd: &WorkDir, paths: &Paths, argv: &[String], env: &Env, stale_o
                     // judge it from a one-shot process instead
                     *slot = None;
                     wd.server_fallbacks.set(wd.server_fallbacks.get() + 1);
+                    prepare();
                 }
             }
         }
